@@ -250,22 +250,46 @@ def rand_props(rng):
 
 
 def gen_build(rng, mode):
-    """mode 'named': everything named, plain names (the property's domain).
-       mode 'wild': unnamed elements, assignment-style names, wildcard characters, original
-       identifiers, missing top instance (outside the domain; correspondence only)."""
+    """mode 'named': everything named (the property's domain); since the repairs of the comparer's
+       lookups / assignment-name test / compare_ports this includes, as ordinary cases, names with
+       the characters * ? [ ] (among them the sibling pair 'ab', 'a*'), names SDN_Assignment_<x>
+       with fewer than four fields, and ports without pins.
+       mode 'wild': unnamed elements (connected unnamed instances included), assignment names,
+       wildcard characters, original identifiers, missing top instance (outside the domain:
+       correspondence, no exception other than AssertionError, an equal copy is accepted)."""
     import netgen
     from ir_world import World
     depth = rng.choice([1, 1, 2, 2, 3])
     ops, info = netgen.build(rng, depth=depth, max_leaf=rng.randint(1, 3),
                              max_children=rng.randint(1, 4))
     extra = []
+    ports = [p for d in info['ports'] for p, _ in info['ports'][d]]
+    cables = [c for d in info['cables'] for c, _ in info['cables'][d]]
+    kids = [x for d in info['children'] for x, _ in info['children'][d]]
+    defs = list(info['all_defs'])
+    libs = list(info['libs'])
+    cand = []
+    if mode == 'named' and rng.random() < 0.5:
+        # names that are not plain identifiers: taken literally by the comparer
+        odd = ['a*', 'p?', 'q[0]', 'x]', '[k', '*', 'u?', 'LEAF*', 'M?_0', 'b[1:0]', '?*', '[]', 'a[*]', 'ab*', '*b']
+        pool = ports + cables + kids + defs
+        for e in rng.sample(pool, k=min(rng.randint(1, 4), len(pool))):
+            cand.append(['setname', str(e), tok_of_s(rng.choice(odd))])
+        groups = [g for g in list(info['ports'].values()) + list(info['cables'].values()) + list(info['children'].values())
+                  if len(g) >= 2]
+        if groups and rng.random() < 0.6:
+            # the second name, read as a pattern, matches the first
+            a, b = rng.sample(rng.choice(groups), 2)
+            first, second = rng.choice([('ab', 'a*'), ('ab', 'a?'), ('x1', '*'), ('q[0]', 'q[*]'), ('ab', '*b')])
+            cand.append(['setname', str(a[0]), tok_of_s(first)])
+            cand.append(['setname', str(b[0]), tok_of_s(second)])
+        rng.shuffle(cand)
+    if mode == 'named' and rng.random() < 0.3:
+        # SDN_Assignment_ names with fewer than four fields are ordinary names
+        for x in rng.sample(kids, k=min(rng.randint(1, 2), len(kids))):
+            cand.append(['setname', str(x), tok_of_s(rng.choice(['SDN_Assignment_7', 'SDN_Assignment_', 'SDN_Assignment_x',
+                                                                 'SDN_Assignment_*']))])
     if mode == 'wild':
-        ports = [p for d in info['ports'] for p, _ in info['ports'][d]]
-        cables = [c for d in info['cables'] for c, _ in info['cables'][d]]
-        kids = [x for d in info['children'] for x, _ in info['children'][d]]
-        defs = list(info['all_defs'])
-        libs = list(info['libs'])
-        cand = []
         for e in rng.sample(ports + cables + kids + defs + libs, k=min(rng.randint(0, 4), len(ports + cables + kids + defs + libs))):
             cand.append(['delname', str(e)])
         for x in rng.sample(kids, k=min(rng.randint(0, 3), len(kids))):
@@ -282,6 +306,7 @@ def gen_build(rng, mode):
         if rng.random() < 0.1:
             cand.append(['delname', str(info['netlist'])])
         rng.shuffle(cand)
+    if cand:
         # keep the decorations the API accepts
         w = World(listen=False)
         try:
@@ -315,6 +340,16 @@ def gen_build(rng, mode):
             build['mops'].append(['create', 'definition', ['L', j], d.name])
             for p in d.ports:
                 build['mops'].append(['create', 'port', ['D', j, k], p.name, len(p.pins), DIRS.index(p.direction)])
+    # ports without pins (an ordinary case since the repair of compare_ports)
+    n = build_netlist(build)
+    if rng.random() < (0.3 if mode == 'named' else 0.15):
+        for _ in range(rng.randint(1, 2)):
+            i = rng.randrange(len(n.libraries))
+            if n.libraries[i].definitions:
+                j = rng.randrange(len(n.libraries[i].definitions))
+                nm = 'zw%d' % len(build['mops'])
+                if all(p.name != nm for p in n.libraries[i].definitions[j].ports):
+                    build['mops'].append(['create', 'port', ['D', i, j], nm, 0, rng.randrange(4)])
     # properties on some instances (same on the netlist and on its copy)
     n = build_netlist(build)
     for i, l in enumerate(n.libraries):
